@@ -12,11 +12,12 @@ import (
 	"google.golang.org/grpc/codes"
 	"google.golang.org/grpc/metadata"
 
+	"github.com/jhump/grpctunnel"
 	"github.com/jhump/grpctunnel/tunnelpb"
 )
 
 var srvDevKinds = []string{
-	"none", "drop-hdr", "dup-hdr", "hdr-after-msg", "drop-msg-first", "drop-msg-cont", "dup-msg", "envelope-inside", "data-plus1", "size-plus1", "size-minus1", "size-64MiB", "size-max",
+	"none", "drop-hdr", "dup-hdr", "hdr-after-msg", "drop-msg-first", "drop-msg-cont", "dup-msg", "envelope-inside", "data-plus1", "data-plus1-noclose", "envelope-inside-noclose", "size-plus1", "size-minus1", "size-64MiB", "size-max",
 	"dup-close", "frame-after-close", "settings-on-stream", "empty-frame", "retarget-unknown-id", "retarget-negative-id", "retarget-finished-id",
 	"win-absurd", "win-zero", "overrun", "no-response", "two-responses", "close-error", "close-first", "big-chunk",
 }
@@ -52,7 +53,7 @@ func famRawSrv(w *World, c *Case, rng *rand.Rand) {
 	w.Wire.JudgeServer = false
 	w.Window.JudgeServer = false
 	respSize := []int{10, 20000, 16384 - 3, 40000}[rng.Intn(4)]
-	if kind == "drop-msg-cont" || kind == "envelope-inside" || kind == "big-chunk" {
+	if kind == "drop-msg-cont" || kind == "envelope-inside" || kind == "envelope-inside-noclose" || kind == "data-plus1-noclose" || kind == "big-chunk" {
 		respSize = 20000 + rng.Intn(20000)
 	}
 	if (kind == "dup-msg" || kind == "two-responses") && respSize > 20000 {
@@ -98,11 +99,16 @@ func famRawSrv(w *World, c *Case, rng *rand.Rand) {
 		if shape == "Unary" || shape == "ClientStream" {
 			expect = "fail"
 		}
-	case "envelope-inside":
+	case "envelope-inside", "envelope-inside-noclose":
 		frames = append(append([]*tunnelpb.ServerToClient{}, frames[:2]...), append([]*tunnelpb.ServerToClient{sMsg(0, 5, []byte{1, 2, 3, 4, 5})}, frames[2:]...)...)
 		expect = "fail"
 		sentComplete = map[int]bool{}
-	case "data-plus1":
+		if kind == "envelope-inside-noclose" {
+			// the peer never closes the stream: the caller's side, having failed the call on the
+			// malformed response, must finish it alone (and tell the peer)
+			frames = frames[:len(frames)-1]
+		}
+	case "data-plus1", "data-plus1-noclose":
 		last := frames[len(frames)-2]
 		switch fr := last.Frame.(type) {
 		case *tunnelpb.ServerToClient_ResponseMessage:
@@ -112,6 +118,9 @@ func famRawSrv(w *World, c *Case, rng *rand.Rand) {
 		}
 		expect = "fail"
 		sentComplete = map[int]bool{}
+		if kind == "data-plus1-noclose" {
+			frames = frames[:len(frames)-1]
+		}
 	case "size-plus1":
 		frames[1].Frame.(*tunnelpb.ServerToClient_ResponseMessage).ResponseMessage.Size++
 		expect = "noresp"
@@ -357,6 +366,20 @@ func famRawSrv(w *World, c *Case, rng *rand.Rand) {
 				}
 			}
 		}
+	}
+	if !tunnelDead {
+		// every call has ended, one way or the other, and the tunnel is still up: the caller's side
+		// keeps nothing of them (a call that its own side failed on a malformed response included)
+		open := 0
+		for _, vw := range views {
+			if vw.spec != nil && clientTerminal(vw) == nil {
+				open++
+			}
+		}
+		if ids, finished, ok := grpctunnel.VerifClientStreamIDs(ch); ok && !finished && len(ids) > open {
+			w.Violate("C14", "client-table-mismatch", "raw server deviation %s/%s: every call but %d has ended, yet the channel's stream table still holds %v", kind, shape, open, ids)
+		}
+		w.Stat("rawsrv_table_checks_while_up", 1)
 	}
 	rs.End(nil)
 	w.Advance(time.Second)
